@@ -621,6 +621,9 @@ class Engine(
         directly as the `skip_to` target of a `Select`.  It delegates to
         `to_payload` for all other relation types.
         """  # noqa: D401
+        # The same columns go into every operand of a UNION [ALL] and are
+        # tested for emptiness below; a one-shot iterable supports neither.
+        extra_columns = tuple(extra_columns)
         columns_available: Mapping[ColumnTag, _L] | None = None
         executable: sqlalchemy.sql.Select | sqlalchemy.sql.CompoundSelect
         match select.skip_to:
